@@ -284,6 +284,23 @@ def SS():
     return None
 
 
+def TT():
+    """del of a derived reference is refused only after it was deleted and re-derived: inputs of the space are gone"""
+    m = _reset()
+    A_ = m.new_space("A")
+    A_.new_cells("foo", formula="lambda x: x + r")
+    A_.r = 1
+    B_ = m.new_space("B", bases=A_)
+    B_.foo[1] = 100
+    try:
+        del B_.r
+    except Exception:     # noqa
+        if dict(B_.foo) != {1: 100}:
+            return "refused `del B.r` (derived) left B.foo holding %r (was {1: 100})" % (dict(B_.foo),)
+        return None
+    return "`del B.r` of a derived reference was accepted"
+
+
 # ------------------------------------------------------------------ C03
 def B():
     """redefining a base cells overwrites copies deriving from an override in between"""
